@@ -21,7 +21,7 @@ which pre-existing objects the *result* may still refer to:
   instance is the very same reference;
 * `no_visible_change`: an in-place write to an object a value cannot reach is
   invisible through that value;
-* `result_disjoint_*`: the same for the copy-on-write helpers.
+* `result_disjoint`: the same for every helper not called in place.
 
 Quantification: every class table without class-level `do_not_copy`
 (`NoClassDnc`), **every** heap (closedness is not needed for these statements),
@@ -130,14 +130,17 @@ theorem copy_insulated (X : Ctx) (hX : NoClassDnc X) (hN : NoAttrDnc X) (h : Hea
 
 /-! ## result_disjoint: the copy-on-write helpers -/
 
-/-- **result_disjoint_partial**: for the constructor, `copy.deepcopy`,
-`reset_<a>()`, `reset()` and `with_<a>(v)` (no keyword arguments), not in place
-(`Op.cowCovered`): every pre-existing object `j` reachable from a successful
-result is reachable (in the start heap) from the value of a `do_not_copy`
-attribute of some instance (`DncAny`), or from an argument of the call
-(`Op.args`) — for every fault plan and crash point.  In particular nothing of
-the receiver's own graph is shared except through `do_not_copy` attributes. -/
-theorem result_disjoint_partial (X₀ : Ctx) (hX : NoClassDnc X₀) (h : Heap) (op : Op)
+/-- **result_disjoint**: for every public operation not called in place
+(`Op.cowCovered`: the constructor, `copy.deepcopy`, `with_<a>`, `update_<a>`,
+`transform_<a>` with a transform returning its argument or a scalar,
+`reset_<a>`, the element helpers `with_/update_/transform_/without_<item>` with
+any callback, `update(**kw)` / `transform(**kw)` with at least one keyword,
+`reset()`), for every fault plan and crash point: every pre-existing object `j`
+reachable from a successful result is reachable (in the start heap) from the
+value of a `do_not_copy` attribute of some instance (`DncAny`), or from an
+argument of the call (`Op.args`).  In particular nothing of the receiver's own
+graph is shared except through `do_not_copy` attributes. -/
+theorem result_disjoint (X₀ : Ctx) (hX : NoClassDnc X₀) (h : Heap) (op : Op)
     (hcov : op.cowCovered = true) (φ : List (CbKind × Nat)) (b : Option Nat) :
     let out := step X₀.close h op φ b
     ∀ r', out.1 = .ok r' → ∀ j, Reach out.2.heap r' j → j < h.length →
@@ -150,6 +153,25 @@ theorem result_disjoint_partial (X₀ : Ctx) (hX : NoClassDnc X₀) (h : Heap) (
   · omega
   · exact hA
 
+/-- The name under which the first, partial version was announced. -/
+theorem result_disjoint_partial (X₀ : Ctx) (hX : NoClassDnc X₀) (h : Heap) (op : Op)
+    (hcov : op.cowCovered = true) (φ : List (CbKind × Nat)) (b : Option Nat) :
+    let out := step X₀.close h op φ b
+    ∀ r', out.1 = .ok r' → ∀ j, Reach out.2.heap r' j → j < h.length →
+      AllowedFrom X₀ h (fun v => v ∈ op.args) j :=
+  result_disjoint X₀ hX h op hcov φ b
+
+/-- The result of a covered operation is a scalar or an object allocated by the call. -/
+theorem result_fresh (X₀ : Ctx) (hX : NoClassDnc X₀) (h : Heap) (op : Op)
+    (hcov : op.cowCovered = true) (φ : List (CbKind × Nat)) (b : Option Nat) :
+    let out := step X₀.close h op φ b
+    ∀ j, out.1 = .ok (.obj j) → h.length ≤ j := by
+  intro out j hok
+  have hW := world_any X₀ h (fun v => v ∈ op.args)
+  obtain ⟨_, hq⟩ := runOp_ps X₀ hX hW op hcov (fun v hv => good_of_S hv) (start h φ b)
+    (HInv.start h _)
+  exact hq _ hok j rfl
+
 /-- Without `do_not_copy` attributes and with scalar arguments only, the result
 of a covered copy-on-write operation reaches no pre-existing object at all. -/
 theorem result_disjoint_nodnc (X₀ : Ctx) (hX : NoClassDnc X₀) (hN : NoAttrDnc X₀) (h : Heap) (op : Op)
@@ -159,27 +181,20 @@ theorem result_disjoint_nodnc (X₀ : Ctx) (hX : NoClassDnc X₀) (hN : NoAttrDn
     ∀ r', out.1 = .ok r' → ∀ j, Reach out.2.heap r' j → h.length ≤ j := by
   intro out r' hok j hj
   by_cases hlt : j < h.length
-  · rcases result_disjoint_partial X₀ hX h op hcov φ b r' hok j hj hlt with hd | ⟨v, hv, hvj⟩
+  · rcases result_disjoint X₀ hX h op hcov φ b r' hok j hj hlt with hd | ⟨v, hv, hvj⟩
     · exact (not_dncAny_of_noAttrDnc hN hd).elim
     · obtain ⟨s, rfl⟩ := hargs v hv
       exact (not_reach_sc hvj).elim
   · omega
 
-/-- The full statement for *every* helper not called in place, with transform
-callbacks restricted to those returning their argument or a scalar
-(`Cb.plain`; `append` / `rebuild` re-use the items of the old list).  Not
-proved: `update_<a>`, `transform_<a>`, the element helpers, `update` and
-`transform` go through the keyword-attribute steps of `mutate_value`
-(`mvAttrs`, `mvAttrTransforms`, `protectIfUnchanged`, `getCollection`), for
-which the provenance lemmas (`PS`) have not been written; attribute-level
-preparers `append` / `rebuild` on `do_not_copy`-free tables are already covered
-by `applyCb_ps`.  Note that "reachable from a `do_not_copy` attribute of an
-instance *reachable from the receiver*" would be false: `reset_<a>()` copies a
-class-level default, which may itself hold `do_not_copy` values aliased with
-the receiver's graph; hence `DncAny`. -/
+/-- The statement without the side conditions of `Op.cowCovered`.  It is **false**
+in the model (and in the library): `v.update()` / `v.transform()` without any
+keyword return the receiver itself (see the examples at the end of the file:
+`step X2 h2 (.update (.obj 0) [] false) = ok (obj 0)`), and `transform_<a>(f)`
+with `f = rebuild` / `append` builds a new list holding the receiver's own items.
+Kept only to record what `result_disjoint` does not claim. -/
 def result_disjoint_Full : Prop :=
   ∀ (X₀ : Ctx), NoClassDnc X₀ → ∀ (h : Heap) (op : Op), op.inplace = false →
-    (∀ cb, cb ∈ op.cbs → cb.plain = true) →
     ∀ (φ : List (CbKind × Nat)) (b : Option Nat) (r' : Ref),
       (step X₀.close h op φ b).1 = .ok r' →
       ∀ j, Reach (step X₀.close h op φ b).2.heap r' j → j < h.length →
@@ -216,6 +231,15 @@ example : (step X2 h2 (.resetAttr (.obj 0) 1 false) [] none).2.heap[3]?
 /-- `with_a0(lst)` stores the caller's list (object 2) by reference -/
 example : (step X2 h2 (.withAttr (.obj 0) 0 (.obj 2) [] false) [] none).2.heap[3]?
     = some (.inst 0 false [(0, .obj 2), (1, .obj 2)]) := by decide
+/-- `update_a0()` without value or keywords copies the unchanged value (new object 3) -/
+example : (step X2 h2 (.updateAttr (.obj 0) 0 (.sc .missing) [] false) [] none).2.heap[4]?
+    = some (.inst 0 false [(0, .obj 3), (1, .obj 2)]) := by decide
+/-- `with_a0_item(7)`: the edited list is a copy (object 3) -/
+example : (step X2 h2 (.elem (.obj 0) 0 (.add (.sc (.int 7)) (.sc .missing) false []) false) []
+    none).2.heap[3]? = some (.list [.sc (.int 1), .sc (.int 7)]) := by decide
+/-- not covered (and not true): `update()` without keywords returns the receiver itself -/
+example : (step X2 h2 (.update (.obj 0) [] false) [] none).1 = .ok (.obj 0) := by decide
+example : (Op.update (.obj 0) [] false).cowCovered = false := by decide
 /-- the table of C01 has no `do_not_copy` attribute: the copy of `C0(a0=5)` is disjoint -/
 example : (deepcopy X1 (.obj 1) (start h1 [] none)).2.heap[3]?
     = some (.inst 0 false [(0, .sc (.int 5)), (1, .obj 4)]) := by decide
